@@ -90,9 +90,13 @@ func runC15(r *Run) {
 	// the connection is still being read, so they have to be answered
 	lateMode := t.Pct(30) && !stallFirst && policy != 6
 	lateSent, lateN := false, 1+t.Draw(3)
+	// mixed: half of the stall-first runs have no guessed pongs and give every
+	// other first-round ping a context that outlives the stall, so that some pings
+	// are still outstanding when the second round starts
+	mixed := stallFirst && t.Pct(50)
 	stalled := false
 	if stallFirst {
-		unsolicited = true
+		unsolicited = !mixed
 		stalled = true
 		sig += ",stall-first"
 		rc.Lib.Out().Cap = 0
@@ -122,6 +126,9 @@ func runC15(r *Run) {
 			pc.timeout = time.Second
 		}
 		second := i >= nPing
+		if mixed && !second && i%2 == 1 {
+			pc.timeout = 6 * time.Second
+		}
 		calls[i] = pc
 		live++
 		r.S.Go(pc.name, func() {
@@ -394,6 +401,29 @@ func runC15(r *Run) {
 			seenPings = append(seenPings, seenPing{string(f.Payload), f.Step})
 			if len(f.Payload) > 125 {
 				r.Violate("ping-too-long", sig, "Ping frame with %d bytes", len(f.Payload))
+			}
+		}
+	}
+	// two outstanding pings cannot each be matched to their own pong if they carry the
+	// same payload: a payload may only repeat once every call that could have sent
+	// its earlier frame has returned
+	for i, a := range seenPings {
+		for _, b := range seenPings[i+1:] {
+			if a.payload != b.payload {
+				continue
+			}
+			senders, stillOut := 0, 0
+			for _, pc := range calls {
+				if pc.invoke <= a.step && (!pc.done || pc.ret >= a.step) {
+					senders++
+					if !pc.done || pc.ret >= b.step {
+						stillOut++
+					}
+				}
+			}
+			if senders > 0 && senders == stillOut {
+				r.Violate("ping-payload-reused-while-outstanding", sig, "two Ping frames with payload %q were emitted at steps %d and %d while the call that sent the first one had not returned", a.payload, a.step, b.step)
+				return
 			}
 		}
 	}
